@@ -13,14 +13,31 @@ from .c07 import _first_flow_of_call, NS, NP
 
 def jtj_unit(sel, tp, n, weighted):
     def h(c):
-        if c.mode != "sym":
-            return
         free = list(tp) if tp is not None else list(PARAMS)
-        with stubs.integrator_stubs(c, eig="fixed") as book, stubs.patched(*loss_patches(c)):
+        if c.mode == "sym":
+            with stubs.integrator_stubs(c, eig="fixed") as book, stubs.patched(*loss_patches(c)):
+                L = build_loss(c, "Square", sel, tp, None, n, weighted, "scalar")
+                J = L.obj.jtj(L.theta_arg)
+                fl = _first_flow_of_call(book, None, c)
+                rows = [book.at(fl, ti) for ti in L.t]
+        else:
+            # replay / fidelity: the real jtj with the real integrators; reference sensitivities from a
+            # tight-tolerance integration of the hand-written SIR variational system (not through PyGOM)
+            from scipy.integrate import solve_ivp
             L = build_loss(c, "Square", sel, tp, None, n, weighted, "scalar")
             J = L.obj.jtj(L.theta_arg)
-            fl = _first_flow_of_call(book, None, c)
-            rows = [book.at(fl, ti) for ti in L.t]
+            b_, g_ = float(L.bound["beta"]), float(L.bound["gamma"])
+
+            def aug(t_, z):
+                S_, J_, R_ = z[:3]
+                f = [-b_ * S_ * J_, b_ * S_ * J_ - g_ * J_, g_ * J_]
+                Jm = np.array([[-b_ * J_, -b_ * S_, 0.0], [b_ * J_, b_ * S_ - g_, 0.0], [0.0, g_, 0.0]])
+                G = np.array([[-S_ * J_, 0.0], [S_ * J_, -J_], [0.0, J_]])
+                Sm = np.reshape(z[3:], (3, 2), "F")
+                return np.concatenate([f, np.reshape(Jm.dot(Sm) + G, 6, "F")])
+            z0 = np.concatenate([[float(v) for v in L.x0], np.zeros(6)])
+            sol = solve_ivp(aug, (float(L.t0), float(L.t[-1])), z0, method="DOP853", t_eval=[float(t_) for t_ in L.t], rtol=1e-12, atol=1e-13)
+            rows = [sol.y[:, i] for i in range(len(L.t))]
         c.reachable("jtj evaluated")
         J = np.asarray(J, dtype=object)
         q = len(free)
@@ -32,8 +49,10 @@ def jtj_unit(sel, tp, n, weighted):
                 for b in range(q):
                     ref[a][b] = ref[a][b] + zsum(Si[j][a] * Si[j][b] for j in range(len(sel)))
         if J.shape == (q, q):
-            c.prove(all_close(J, ref, c), "jtj == sum over observations of outer products of the weighted sensitivities (parameters in the order supplied)")
+            c.prove(all_close(J, ref, c, tol=2e-5), "jtj == sum over observations of outer products of the weighted sensitivities (parameters in the order supplied)")
             c.prove(all_close(J, J.T, c), "jtj is symmetric")
+            if c.mode != "sym":
+                return
             # positive semi-definiteness, attempted directly (sum-of-squares form; bounded solver effort)
             v = [c.real("v%d" % a) for a in range(q)]
             quad = zsum(v[a] * J[a][b] * v[b] for a in range(q) for b in range(q))
